@@ -546,7 +546,7 @@ static void prefill_part(void)
 		for (int pi = 0; pi < 5; pi++)
 			for (int level = 0; level <= 3; level++)
 				for (int gz = 0; gz < 2; gz++)
-					for (int api = 0; api < 3; api++)
+					for (int api = 0; api < 4; api++)
 						for (int ci = 0; ci < 3; ci++) {
 							if (!v_mine(unit++))
 								continue;
@@ -568,7 +568,7 @@ static void prefill_part(void)
 								if (api < 2) {
 									s->next_in = in; s->avail_in = len; s->end_of_stream = 1; s->next_out = out[pf]; s->avail_out = 60000;
 									r = api == 0 ? isal_deflate_stateless(s) : isal_deflate(s);
-								} else {
+								} else if (api == 2) {
 									size_t ip = 0;
 									s->next_out = out[pf]; s->avail_out = 60000;
 									do {
@@ -577,6 +577,15 @@ static void prefill_part(void)
 										s->end_of_stream = ip >= (size_t)len;
 										r = isal_deflate(s);
 									} while (r == 0 && s->internal_state.state != ZSTATE_END);
+								} else { /* api 3: everything offered at once with end_of_stream, the output drained in 64-byte pieces */
+									size_t op = 0;
+									s->flush = NO_FLUSH;
+									s->next_in = in; s->avail_in = len; s->end_of_stream = 1;
+									do {
+										s->next_out = out[pf] + op; s->avail_out = 64;
+										r = isal_deflate(s);
+										op += 64 - s->avail_out;
+									} while (r == 0 && s->internal_state.state != ZSTATE_END && op < 59000);
 								}
 								ret[pf] = r; olen[pf] = s->total_out; tin[pf] = s->total_in; st[pf] = s->internal_state.state;
 								if (pf == 3) { memcpy(ctxprev, s, sizeof *s); memcpy(lbprev, lb, ISAL_DEF_LVL3_DEFAULT); }
